@@ -273,7 +273,7 @@ type branchT struct {
 
 var parentErrRe = regexp.MustCompile(`^[0-9a-f]{40} > [0-9a-f]{40}$`)
 
-func runCase(cs caseT) (obs []Sx, nontrivial bool) {
+func runCase(cs caseT) (obs []Sx, nontrivial bool, flip bool) {
 	specs := make([]synth.CommitSpec, len(cs.commits))
 	for i, c := range cs.commits {
 		sp := synth.CommitSpec{Parents: c.parents, AuthorName: "u", AuthorEmail: "u@x"}
@@ -407,6 +407,24 @@ func runCase(cs caseT) (obs []Sx, nontrivial bool) {
 	for _, x := range phList {
 		lang = append(lang, L(A(x.p), I(r.id(x.h)), B(langVerdict(td0.Languages, repo, x.p, x.h))))
 	}
+	// does the language verdict of some path differ between a commit and one of its parents?
+	verdict := func(l leaf) bool { return td0.Languages["all"] || langVerdict(td0.Languages, repo, l.path, l.hash) }
+	for i := range commits {
+		for _, p := range cs.commits[i].parents {
+			if p < 0 || p >= len(commits) {
+				continue
+			}
+			before := map[string]bool{}
+			for _, l := range leaves[p] {
+				before[l.path] = verdict(l)
+			}
+			for _, l := range leaves[i] {
+				if v, ok := before[l.path]; ok && v != verdict(l) {
+					flip = true
+				}
+			}
+		}
+	}
 	fskip := make([]Sx, len(td0.SkipFiles))
 	for i, s := range td0.SkipFiles {
 		fskip[i] = strSx(s)
@@ -534,7 +552,11 @@ func runCase(cs caseT) (obs []Sx, nontrivial bool) {
 }
 
 func emit(c *Config, cs caseT) {
-	obs, nt := runCase(cs)
+	obs, nt, flip := runCase(cs)
+	if flip {
+		// the open finding "language-flip" has its own stream; the ordinary streams stay free of it
+		cs.kind = "langflip"
+	}
 	commits := make([]Sx, len(cs.commits))
 	for i, x := range cs.commits {
 		commits[i] = x.sx()
